@@ -155,7 +155,7 @@ def gen_history(rng, tabs, bs, nops, obs):
             lines.append("punch %d %d %d" % (f, a, b))
         elif k < 0.76 and len(alc) >= 2:
             a, b = sorted(rng.sample(alc, 2))
-            lines.append("falloc %d %d %d %d" % (f, a, b, rng.randrange(4)))
+            lines.append("falloc %d %d %d %d" % (f, a, b, rng.randrange(5)))
         elif k < 0.84:
             lines.append("read %d" % f)
         elif k < 0.90:
@@ -268,7 +268,7 @@ def nontrivial(body, tabs, bs):
 def model_check(ev, tier, work, vd):
     runs = []
     if tier == "quick":
-        runs.append(("FileData", "ASpec", dict(NFiles=2, NCuts=6, MaxOps=3), ["TypeOK", "NoDataPastEOF", "ReadExact", "LastWriteWins"], ["Frame"]))
+        runs.append(("FileData", "ASpec", dict(NFiles=2, NCuts=5, MaxOps=3), ["TypeOK", "NoDataPastEOF", "ReadExact", "LastWriteWins"], ["Frame"]))
     else:
         runs.append(("FileData", "ASpec", dict(NFiles=2, NCuts=7, MaxOps=4), ["TypeOK", "NoDataPastEOF", "ReadExact", "LastWriteWins"], ["Frame"]))
     for mod, spec, consts, invs, props in runs:
